@@ -219,7 +219,7 @@ Next == \/ StoreLoad
         \/ JoinBatch
 
 Spec == Init /\ [][Next]_vars
-FairSpec == Spec /\ WF_vars(\E w \in 1..MaxW : Acquire(w) \/ AcquireFail(w) \/ FetchStart(w) \/ FetchOk(w) \/ FetchFail(w) \/ Finish(w))
+FairSpec == Spec /\ WF_vars(\E w \in 1..MaxW : Acquire(w) \/ AcquireFail(w) \/ FetchStart(w) \/ FetchOk(w) \/ FetchFail(w) \/ FetchTimeout(w) \/ Finish(w))
                  /\ WF_vars(\E q \in Reqs : Request(q) \/ Return(q)) /\ WF_vars(JoinBatch)
 
 (* ------------------------------ properties ------------------------------ *)
